@@ -39,8 +39,15 @@ def views_of(sigs):
 def merge_specs(specs):
     from sigtools import signatures
     from vlib.framework import stable_hash
+    h = stable_hash([universe.spec_text(s) for s in specs])
+    mode = (h >> 8) % 3
+    if mode and not any(p.ann for s in specs for p in s):
+        # which calls the result accepts has nothing to do with annotations: a third of the tuples is merged with annotations
+        # the inputs disagree on (mode 1), a third with only every second input annotated (mode 2)
+        ann = lambda i: ('int' if i % 2 == 0 else 'str') if mode == 1 else ('str' if i % 2 else None)
+        specs = [tuple(p._replace(ann=ann(i)) for p in s) for i, s in enumerate(specs)]
     sigs = [realfn.sig_of(s, 'f%d' % i) for i, s in enumerate(specs)]
-    if stable_hash([universe.spec_text(s) for s in specs]) % 4 == 0:
+    if h % 4 == 0:
         # the signature objects are shared between cases (cached): now and then they go through another operation first;
         # what merge then says about them must not depend on it
         for sg in sigs:
